@@ -5,6 +5,7 @@ package eng
 import (
 	"fmt"
 	"sync"
+	"sync/atomic"
 	"time"
 
 	"github.com/element-of-surprise/coercion"
@@ -135,7 +136,18 @@ func errS(err error) string {
 }
 
 // WaitPlan waits with a watchdog. ok=false means the watchdog fired.
+// CappedWaits counts the waits that were given up while the engine was still making progress (slow, not hung):
+// the framework turns a case in which that happened into an inconclusive one.
+var CappedWaits atomic.Int64
+
+// WaitPlan waits for Wait(id) to return. "Hung" is decided on progress, not on wall-clock: ok is false when
+// plug.Progress (events that are new in kind, see there) plus the optional extra counter has not moved for d, or when
+// 8*d have passed with progress still being made (then CappedWaits is bumped too: inconclusive, not hung).
 func WaitPlan(ws *coercion.Workstream, id uuid.UUID, d time.Duration) (p *workflow.Plan, err error, ok bool) {
+	return WaitPlanP(ws, id, d, nil)
+}
+
+func WaitPlanP(ws *coercion.Workstream, id uuid.UUID, d time.Duration, extra func() int64) (p *workflow.Plan, err error, ok bool) {
 	type res struct {
 		p   *workflow.Plan
 		err error
@@ -145,11 +157,34 @@ func WaitPlan(ws *coercion.Workstream, id uuid.UUID, d time.Duration) (p *workfl
 		p, err := ws.Wait(context.Background(), id)
 		ch <- res{p, err}
 	}()
-	select {
-	case r := <-ch:
-		return r.p, r.err, true
-	case <-time.After(d):
-		return nil, nil, false
+	progress := func() int64 {
+		n := plug.Progress.Load()
+		if extra != nil {
+			n += extra()
+		}
+		return n
+	}
+	start := time.Now()
+	last, lastChange := progress(), start
+	tick := time.NewTicker(100 * time.Millisecond)
+	defer tick.Stop()
+	for {
+		select {
+		case r := <-ch:
+			return r.p, r.err, true
+		case <-tick.C:
+		}
+		now := time.Now()
+		if cur := progress(); cur != last {
+			last, lastChange = cur, now
+		}
+		if now.Sub(lastChange) >= d {
+			return nil, nil, false
+		}
+		if now.Sub(start) >= 8*d {
+			CappedWaits.Add(1)
+			return nil, nil, false
+		}
 	}
 }
 
